@@ -261,7 +261,9 @@ func (progBldr *ProgBuilder) Deref() {
 		if err != nil {
 			ctx.execError(err.Error(), "")
 		}
-		ctx.actualPathStack.PushPath(lrefentry.GetSdcpbPath())
+		// The steps that follow are appended to this path: a copy, so that
+		// the path the data tree keeps for the entry stays what it is
+		ctx.actualPathStack.PushPath(lrefentry.GetSdcpbPath().DeepCopy())
 	}
 
 	progBldr.CodeFn(derefFunc, "deref")
